@@ -949,6 +949,39 @@ func (e *Engine) repeatChecks(id string) []fdResult {
 			}
 		}
 	}
+	// (5) what a cache fill stores in its holder must not alias memory someone else may reuse: a pointer-like value
+	// stored into a field of a pre-existing object by FILL code is fresh (allocated by the fill, or returned by an external
+	// declared `attr fresh`)
+	var alias []string
+	for _, fn := range sortedFns(rs.fill) {
+		if fn.Blocks == nil {
+			continue
+		}
+		for _, b := range fn.Blocks {
+			for _, in := range b.Instrs {
+				st, ok := in.(*ssa.Store)
+				if !ok || fieldOf(st.Addr) == "" || rs.fresh(st.Addr, map[ssa.Value]bool{}) {
+					continue
+				}
+				switch st.Val.Type().Underlying().(type) {
+				case *types.Slice, *types.Pointer, *types.Map:
+				default:
+					continue
+				}
+				if c, isC := st.Val.(*ssa.Const); isC && c.IsNil() {
+					continue
+				}
+				if selfAppend(st) {
+					continue // field = append(field, ...): grows the holder's own slice
+				}
+				if !rs.fresh(st.Val, map[ssa.Value]bool{}) {
+					alias = append(alias, fmt.Sprintf("%s caches in %s a value that is not known to be newly allocated (%s) at %s", shortFn(fn), fieldOf(st.Addr), describeAddr(st.Val), e.pos(st.Pos())))
+				}
+			}
+		}
+	}
+	out = append(out, fdResult{Name: "kit.JApi/repeat-cache-alias#1", Props: props,
+		Goal: "a value cached under sync.Once is newly allocated memory (not a buffer the dependency may reuse)", OK: len(alias) == 0, Detail: strings.Join(alias, "\n")})
 	out = append(out, fdResult{Name: "kit.JApi/repeat-cache#1", Props: props,
 		Goal: fmt.Sprintf("fields filled under sync.Once (%s; %d cache-fill functions) are written by no code that runs on every call", strings.Join(cf, ", "), len(rs.fill)),
 		OK: len(clash) == 0 && len(rs.fillRoot) > 0, Detail: strings.Join(clash, "\n")})
@@ -1013,4 +1046,41 @@ func (e *Engine) repeatAssumptions() map[string]bool {
 	out["REPEAT cache-fill code that runs under sync.Once is assumed to write only memory owned by its Once holder, except where a deductive frame contract covers it: "+strings.Join(fl, "; ")] = true
 	out["REPEAT sync.Once runs its function at most once and later calls see its writes (semantics of the standard library, not modelled)"] = true
 	return out
+}
+
+// selfAppend: `x.f = append(x.f, ...)`
+func selfAppend(st *ssa.Store) bool {
+	c, ok := st.Val.(*ssa.Call)
+	if !ok {
+		return false
+	}
+	bi, ok := c.Call.Value.(*ssa.Builtin)
+	if !ok || bi.Name() != "append" || len(c.Call.Args) == 0 {
+		return false
+	}
+	ld, ok := c.Call.Args[0].(*ssa.UnOp)
+	if !ok {
+		return false
+	}
+	return sameAddr(ld.X, st.Addr, 0)
+}
+
+// sameAddr: the two address expressions are syntactically the same path (x.f.g read twice without a write in between is
+// what the builder emits for `x.f.g = append(x.f.g, ...)`)
+func sameAddr(a, b ssa.Value, depth int) bool {
+	if a == b {
+		return true
+	}
+	if depth > 6 {
+		return false
+	}
+	switch x := a.(type) {
+	case *ssa.FieldAddr:
+		y, ok := b.(*ssa.FieldAddr)
+		return ok && x.Field == y.Field && sameAddr(x.X, y.X, depth+1)
+	case *ssa.UnOp:
+		y, ok := b.(*ssa.UnOp)
+		return ok && x.Op == y.Op && sameAddr(x.X, y.X, depth+1)
+	}
+	return false
 }
